@@ -150,6 +150,7 @@ func vfValueEq(a, b Value) bool {
 //
 //	layout "explicit:k0,k1,k2"  concrete explicit keys (both sides of the slice/map fetcher boundary)
 //	       "symbolic-map"       arbitrary distinct keys outside 0..255 in at least one position (map fetcher)
+//	       "hist:range:pre:ops" a pre-populated key map with arbitrary keys, then RegVarAndOp / GetOrRegisterKey
 //	       "register:perm"      GetOrRegisterKey in the order given by perm (e.g. 201)
 //	       "regvarandop"        RegVarAndOp over the bindings, every map iteration order
 //	       "undefined"          AllowUndefinedVariable, nothing registered
@@ -206,6 +207,43 @@ func VerifC11Layout(args []string) {
 				outside = outside || k < 0 || k > 255
 			}
 			vfAssume(outside)
+		case len(layout) > 5 && layout[:5] == "hist:":
+			// hist:<range>:<pre-populated names>:<registrations>: the named variables start with arbitrary
+			// pairwise distinct keys (small: 0..6, out: outside 0..255); then r = RegVarAndOp over the
+			// bindings, a digit = GetOrRegisterKey for that variable
+			parts := vfSplit(layout[5:], ':')
+			var ks []VariableKey
+			for _, c := range parts[1] {
+				name := names[int(c-'0')]
+				k := VariableKey(vfInt16("key." + name))
+				if parts[0] == "small" {
+					vfAssume(k >= 0)
+					vfAssume(k <= 6)
+				} else {
+					vfAssume(k < 0 || k > 255)
+				}
+				for _, o := range ks {
+					vfAssume(o != k)
+				}
+				ks = append(ks, k)
+				conf.VariableKeyMap[name] = k
+			}
+			for _, c := range parts[2] {
+				if c == 'r' {
+					vfMapOrder(true)
+					RegVarAndOp(vals)(conf)
+					vfMapOrder(false)
+				} else {
+					GetOrRegisterKey(conf, names[int(c-'0')])
+				}
+			}
+			for i := range names {
+				for j := i + 1; j < len(names); j++ {
+					ki, iok := conf.VariableKeyMap[names[i]]
+					kj, jok := conf.VariableKeyMap[names[j]]
+					vfAssert(iok && jok && ki != kj, "two names share one key (or one has none) after the registration history "+layout)
+				}
+			}
 		case len(layout) > 9 && layout[:9] == "register:":
 			for _, c := range layout[9:] {
 				GetOrRegisterKey(conf, names[int(c-'0')])
